@@ -771,3 +771,106 @@ Proof. intros stages [|xs r]; reflexivity. Qed.
 Lemma program_spec : forall stages q parts,
   run_program stages q parts = (repeat 0%nat (S (length stages)), run_query q stages parts).
 Proof. intros. unfold run_program. rewrite define_all_silent. reflexivity. Qed.
+
+(* ---- take(n) stops immediately after the n-th element has been yielded ------------------------------------------ *)
+Definition gt_of (t : Z * ptrace) : trace := map Ev (created (snd t)) ++ body (snd t).
+
+Lemma take_trace_zero : forall t, take_trace 0 t = ([], [], 0%nat).
+Proof. destruct t as [|[e|a] t]; reflexivity. Qed.
+
+Lemma take_trace_app : forall t1 t2 n,
+  take_trace n (t1 ++ t2) =
+  let '(l1, o1, r) := take_trace n t1 in
+  let '(l2, o2, r2) := take_trace r t2 in (l1 ++ l2, o1 ++ o2, r2).
+Proof.
+  induction t1 as [|[e|a] t1 IH]; intros t2 n.
+  - destruct n as [|n]; simpl app.
+    + rewrite !take_trace_zero. reflexivity.
+    + cbn [take_trace]. destruct (take_trace (S n) t2) as [[l2 o2] r2]. reflexivity.
+  - destruct n as [|n]; [simpl app; rewrite !take_trace_zero; reflexivity|].
+    simpl app. cbn [take_trace]. rewrite IH.
+    destruct (take_trace (S n) t1) as [[l1 o1] r]. destruct (take_trace r t2) as [[l2 o2] r2]. reflexivity.
+  - destruct n as [|n]; [simpl app; rewrite !take_trace_zero; reflexivity|].
+    simpl app. cbn [take_trace]. rewrite IH.
+    destruct (take_trace n t1) as [[l1 o1] r]. destruct (take_trace r t2) as [[l2 o2] r2]. reflexivity.
+Qed.
+
+Lemma take_trace_map_Ev : forall cr n, take_trace (S n) (map Ev cr) = (cr, [], S n).
+Proof.
+  induction cr as [|e cr IH]; intros n; [reflexivity|].
+  simpl map. cbn [take_trace]. rewrite IH. reflexivity.
+Qed.
+
+(* islice(chain.from_iterable(tasks)) = islice over the flattened computation *)
+Lemma take_parts_flat : forall ts n,
+  take_parts n ts = let '(l, o, _) := take_trace n (concat (map gt_of ts)) in (l, o).
+Proof.
+  induction ts as [|[p pt] rest IH]; intros n.
+  - destruct n; reflexivity.
+  - destruct n as [|n]; [rewrite take_parts_zero, take_trace_zero; reflexivity|].
+    cbn [take_parts map concat]. unfold gt_of at 1. cbn [snd].
+    rewrite <- app_assoc, take_trace_app, take_trace_map_Ev, take_trace_app.
+    destruct (take_trace (S n) (body pt)) as [[l1 o1] r]. rewrite IH.
+    destruct (take_trace r (concat (map gt_of rest))) as [[l2 o2] r2]. reflexivity.
+Qed.
+
+Lemma take_trace_stops : forall t n l o r, take_trace n t = (l, o, r) ->
+  exists pre post, t = pre ++ post /\ l = events pre /\ o = outs pre /\
+    (post = [] \/ (length o = n /\ (n = 0%nat \/ exists pre' a, pre = pre' ++ [Out a]))).
+Proof.
+  induction t as [|[e|a] t IH]; intros n l o r H.
+  - exists [], []. destruct n; simpl in H; inversion H; subst; auto 6.
+  - destruct n as [|n].
+    { rewrite take_trace_zero in H; inversion H; subst. exists [], (Ev e :: t). simpl. auto 8. }
+    cbn [take_trace] in H. destruct (take_trace (S n) t) as [[l1 o1] r1] eqn:E. inversion H; subst.
+    destruct (IH _ _ _ _ E) as (pre & post & Ht & Hl & Ho & Hc).
+    exists (Ev e :: pre), post. subst t l1 o. simpl. split; [reflexivity|]. split; [reflexivity|]. split; [reflexivity|].
+    destruct Hc as [Hc|(Hc1 & Hc2)]; [left; exact Hc|].
+    right. split; [exact Hc1|]. destruct Hc2 as [Hc2|(pre' & a & Hc2)]; [discriminate|].
+    right. exists (Ev e :: pre'), a. subst pre. reflexivity.
+  - destruct n as [|n].
+    { rewrite take_trace_zero in H; inversion H; subst. exists [], (Out a :: t). simpl. auto 8. }
+    cbn [take_trace] in H. destruct (take_trace n t) as [[l1 o1] r1] eqn:E. inversion H; subst.
+    destruct (IH _ _ _ _ E) as (pre & post & Ht & Hl & Ho & Hc).
+    exists (Out a :: pre), post. subst t l o1. simpl. split; [reflexivity|]. split; [reflexivity|]. split; [reflexivity|].
+    destruct Hc as [Hc|(Hc1 & Hc2)]; [left; exact Hc|].
+    right. split; [congruence|]. right. destruct Hc2 as [Hc2|(pre' & a' & Hc2)].
+    + try subst n. try rewrite Hc2 in E. rewrite take_trace_zero in E. injection E as El Eo Er.
+      destruct pre as [|[e'|a'] pre]; simpl in El, Eo; try discriminate.
+      exists [], a. reflexivity.
+    + exists (Out a :: pre'), a'. subst pre. reflexivity.
+Qed.
+
+Lemma global_trace_eq : forall stages parts, global_trace stages parts = concat (map gt_of (tasks stages parts)).
+Proof. reflexivity. Qed.
+
+Lemma take_stops_at_nth : forall n stages parts,
+  exists pre post, global_trace stages parts = pre ++ post /\
+    take_log n stages parts = events pre /\ take_result n stages parts = outs pre /\
+    (post = [] \/ (length (take_result n stages parts) = n /\ (n = 0%nat \/ exists pre' a, pre = pre' ++ [Out a]))).
+Proof.
+  intros n stages parts. unfold take_log, take_result. rewrite take_parts_flat, <- global_trace_eq.
+  destruct (take_trace n (global_trace stages parts)) as [[l o] r] eqn:E. simpl.
+  apply (take_trace_stops _ _ _ _ _ E).
+Qed.
+
+Lemma global_trace_events : forall stages parts,
+  events (global_trace stages parts) = job_log ACollect stages parts.
+Proof.
+  intros. rewrite collect_log_drain, global_trace_eq.
+  induction (tasks stages parts) as [|[p pt] rest IH]; simpl; auto.
+  rewrite events_app, IH. unfold gt_of, ev_of, all_events; simpl. now rewrite events_app, events_map_Ev.
+Qed.
+
+Lemma global_trace_outs : forall stages parts,
+  outs (global_trace stages parts) = concat (map (sem_pipe stages) parts).
+Proof.
+  intros. rewrite <- tasks_outs, global_trace_eq.
+  induction (tasks stages parts) as [|[p pt] rest IH]; simpl; auto.
+  rewrite outs_app, IH. unfold gt_of, out_of, all_outs; simpl. now rewrite outs_app, outs_map_Ev.
+Qed.
+
+Lemma global_trace_full_pass : forall stages parts,
+  events (global_trace stages parts) = job_log ACollect stages parts /\
+  outs (global_trace stages parts) = concat (map (sem_pipe stages) parts).
+Proof. intros. split; [apply global_trace_events | apply global_trace_outs]. Qed.
